@@ -267,9 +267,9 @@ struct Runner {
   bool run_assignment(const Assignment& a) {
     Params P = C.base;
     for (int k = 0; k < a.nd; k++) P.m[P.names[a.d[k].p]] = a.d[k].v;
-    // long-double-only pass: every input gets 62 significant bits (exact in long double and float128, NOT representable in
-    // double), so a double temporary holding nothing but inputs (Gamma - 1, a*pi/L ...) is no longer exact by accident
-    if (O.ldfull) for (auto& kv : P.m) if (std::find(C.sys->frozen.begin(), C.sys->frozen.end(), kv.first) == C.sys->frozen.end()) kv.second = kv.second * (1.0L + 0x1p-48L);
+    // long-double-only pass: every input gets a full 64-bit mantissa (the reference receives exactly that long double value; it is NOT
+    // representable in double), so a double temporary holding nothing but inputs (Gamma - 1, a*pi/L ...) is no longer exact by accident
+    if (O.ldfull) for (auto& kv : P.m) if (std::find(C.sys->frozen.begin(), C.sys->frozen.end(), kv.first) == C.sys->frozen.end()) kv.second = kv.second * 1.00000000012345678901L;  // rounded to long double: a full 64-bit mantissa
     if (C.sys->derive) C.sys->derive(P);
     std::vector<std::vector<Expect>> ex(C.pts.size());
     size_t nskip = 0;
@@ -309,13 +309,16 @@ static void build_ctx(Ctx& C, const System& sys, int tier) {
   if (g_red) for (auto& f : g_red->fixA) { if (!C.base.has(f.first)) { fprintf(stderr, "E1 HARNESS ERROR: reduction %s fixes unknown parameter %s\n", g_red->id.c_str(), f.first.c_str()); exit(2); } C.base.m[f.first] = f.second; }
   if (sys.derive) sys.derive(C.base);
   C.pts = sys.points(tier);
-  if (O.ldfull) for (auto& p : C.pts) for (int k = 0; k < 4; k++) p.c[k] = p.c[k] * (1.0L + 0x1p-47L);
+  if (O.ldfull) for (auto& p : C.pts) for (int k = 0; k < 4; k++) p.c[k] = p.c[k] * 1.00000000043210987654L;
   C.alpha.assign(names.size(), {});
   for (size_t i = 0; i < names.size(); i++) {
     if (std::find(sys.frozen.begin(), sys.frozen.end(), names[i]) != sys.frozen.end()) continue;
     if (g_red) { bool fixed = false; for (auto& f : g_red->fixA) if (f.first == names[i]) fixed = true; if (fixed) continue; }
     LD b = C.base.m[names[i]];
     std::vector<LD> cand = {C.dflt[i], 0.0L, -b, 2 * b + 0.125L};
+    // near-singular value for the ratio of specific heats: 1/(Gamma-1) terms become 100x larger and dominate the scale, so that
+    // whatever is wrong only in them (precision of Gamma-1, a dropped Gamma factor) is no longer a small share of S
+    if (names[i] == "Gamma" || names[i] == "gamma") cand.push_back(1.0L + 1.0L / 256);
     if (sys.alphabet) cand = sys.alphabet(names[i], b, C.dflt[i]);
     for (LD v : cand) {
       if (v == b) continue;
